@@ -623,7 +623,12 @@ theorem noWalrusSeq (p : Nat → Bool) : (xs : List Expr) → inFragList xs = tr
 theorem noWalrusItems (p : Nat → Bool) : (is : List DictItem) → inFragItems is = true →
     ∀ (first : Bool), Tok.op .walrus ∉ toks (unparseDictItems p is first)
   | [], _, _ => by simp [unparseDictItems]
-  | .mk none v :: is, h, _ => by simp [inFragItems] at h
+  | .mk none v :: is, h, first => by
+    have hv : inFrag v = true := by simp [inFragItems] at h; exact h.1
+    have his : inFragItems is = true := by simp [inFragItems] at h; exact h.2
+    have h2 := noWalrus p v hv Prec.EXPR
+    have h3 := noWalrusItems p is his false
+    cases first <;> simp [unparseDictItems, delim, h2, h3, op]
   | .mk (some k) v :: is, h, first => by
     have hk : inFrag k = true := by simp [inFragItems] at h; exact h.1.1
     have hv : inFrag v = true := by simp [inFragItems] at h; exact h.1.2
@@ -766,7 +771,12 @@ theorem noAssignSeq (p : Nat → Bool) : (xs : List Expr) → inFragList xs = tr
 theorem noAssignItems (p : Nat → Bool) : (is : List DictItem) → inFragItems is = true →
     ∀ (first : Bool), Tok.op .assign ∉ toks (unparseDictItems p is first)
   | [], _, _ => by simp [unparseDictItems]
-  | .mk none v :: is, h, _ => by simp [inFragItems] at h
+  | .mk none v :: is, h, first => by
+    have hv : inFrag v = true := by simp [inFragItems] at h; exact h.1
+    have his : inFragItems is = true := by simp [inFragItems] at h; exact h.2
+    have h2 := noAssign p v hv Prec.EXPR
+    have h3 := noAssignItems p is his false
+    cases first <;> simp [unparseDictItems, delim, h2, h3, op]
   | .mk (some k) v :: is, h, first => by
     have hk : inFrag k = true := by simp [inFragItems] at h; exact h.1.1
     have hv : inFrag v = true := by simp [inFragItems] at h; exact h.1.2
@@ -1882,27 +1892,37 @@ theorem toks_dictItems_cons' (p : Nat → Bool) (k v : Expr) (is : List DictItem
       .op .comma :: (toks (unparse p k 1) ++ .op .colon :: (toks (unparse p v 1) ++ toks (unparseDictItems p is false))) := by
   simp [unparseDictItems, delim, Prec.TEST, op]
 
+theorem toks_dictItems_unpack (p : Nat → Bool) (v : Expr) (is : List DictItem) :
+    toks (unparseDictItems p (.mk none v :: is) true) =
+      .op .dstar :: (toks (unparse p v 6) ++ toks (unparseDictItems p is false)) := by
+  simp [unparseDictItems, delim, Prec.EXPR, Prec.BOR, op]
+
+theorem toks_dictItems_unpack' (p : Nat → Bool) (v : Expr) (is : List DictItem) :
+    toks (unparseDictItems p (.mk none v :: is) false) =
+      .op .comma :: .op .dstar :: (toks (unparse p v 6) ++ toks (unparseDictItems p is false)) := by
+  simp [unparseDictItems, delim, Prec.EXPR, Prec.BOR, op]
+
 /-- what the induction gives for the entries of a dict display -/
 def GoodItems (p : Nat → Bool) : List DictItem → Prop
   | [] => True
   | .mk (some k) v :: is => (RT p k ∧ inFrag k = true) ∧ (RT p v ∧ inFrag v = true) ∧ GoodItems p is
-  | .mk none _ :: _ => False
+  | .mk none v :: is => (RT p v ∧ inFrag v = true) ∧ GoodItems p is
 
 /-- what follows a dict value: `,` (more entries) or `}` -/
-theorem after_value (p : Nat → Bool) (is : List DictItem) (hg : GoodItems p is) (rest : List Tok) :
-    ∃ c r', toks (unparseDictItems p is false) ++ .op .rbrace :: rest = c :: r' ∧ contTok 1 c = false ∧
+theorem after_value (p : Nat → Bool) (is : List DictItem) (rest : List Tok) :
+    ∃ c r', toks (unparseDictItems p is false) ++ .op .rbrace :: rest = c :: r' ∧ (∀ lvl, contTok lvl c = false) ∧
       atCompFor (c :: r') = false := by
   cases is with
-  | nil => exact ⟨.op .rbrace, rest, by simp [unparseDictItems], contTok_rbrace 1, rfl⟩
+  | nil => exact ⟨.op .rbrace, rest, by simp [unparseDictItems], fun l => contTok_rbrace l, rfl⟩
   | cons i is' =>
     cases i with
     | mk k v =>
       cases k with
-      | none => simp [GoodItems] at hg
-      | some k => exact ⟨.op .comma, _, by rw [toks_dictItems_cons']; rfl, contTok_comma 1, rfl⟩
+      | none => exact ⟨.op .comma, _, by rw [toks_dictItems_unpack']; rfl, fun l => contTok_comma l, rfl⟩
+      | some k => exact ⟨.op .comma, _, by rw [toks_dictItems_cons']; rfl, fun l => contTok_comma l, rfl⟩
 
 /-- `key ":" value` -/
-theorem dict_entry (p : Nat → Bool) {k v : Expr} (hk : RT p k) (hfk : inFrag k = true) (hv : RT p v)
+theorem dict_entry (p : Nat → Bool) {k v : Expr} (hk : RT p k) (hv : RT p v)
     {c : Tok} {r' : List Tok} (hc : contTok 1 c = false) :
     ∃ n, ∀ f, n ≤ f →
       parseTest f (toks (unparse p k 1) ++ .op .colon :: (toks (unparse p v 1) ++ c :: r')) =
@@ -1915,17 +1935,36 @@ theorem dict_entry (p : Nat → Bool) {k v : Expr} (hk : RT p k) (hfk : inFrag k
   obtain ⟨n2, hn2⟩ := h2
   exact ⟨n1 + n2, fun f hf => ⟨hn1 f (by omega), hn2 f (by omega)⟩⟩
 
+/-- the operand of `**`: an `Expression` -/
+theorem dict_unpack_value (p : Nat → Bool) {v : Expr} (hv : RT p v) {c : Tok} {r' : List Tok}
+    (hc : contTok 6 c = false) :
+    ∃ n, ∀ f, n ≤ f → parseBin 0 f (toks (unparse p v 6) ++ c :: r') = some (v, c :: r') := by
+  have h := hv 6 (c :: r') (by omega) (by omega) (Stop.cons hc)
+  rwa [parseAt_bin (k := 0) (by omega)] at h
+
 theorem dictRestRT (p : Nat → Bool) : (is : List DictItem) → GoodItems p is → ∀ rest, ∃ n, ∀ f, n ≤ f →
     parseDictRest f (toks (unparseDictItems p is false) ++ .op .rbrace :: rest) = some (is, rest)
   | [], _, rest => by
     refine ⟨1, fun fuel hf => ?_⟩
     obtain ⟨f, rfl, _⟩ := fuel_succ hf
     simp [unparseDictItems, parseDictRest]
-  | .mk none v :: is, hg, rest => by simp [GoodItems] at hg
+  | .mk none v :: is, hg, rest => by
+    obtain ⟨⟨hv, hfv⟩, his⟩ := hg
+    obtain ⟨c, r', hcr, hc, _⟩ := after_value p is rest
+    obtain ⟨n1, hn1⟩ := dict_unpack_value p hv (c := c) (r' := r') (hc 6)
+    obtain ⟨n2, hn2⟩ := dictRestRT p is his rest
+    refine ⟨n1 + n2 + 1, fun fuel hf => ?_⟩
+    obtain ⟨f, rfl⟩ : ∃ f, fuel = f + 1 := ⟨fuel - 1, by omega⟩
+    have hV := hn1 f (by omega)
+    have hR := hn2 f (by omega)
+    rw [hcr] at hR
+    rw [toks_dictItems_unpack', List.cons_append, List.cons_append, List.append_assoc, hcr, parseDictRest, hV]
+    simp only
+    rw [hR]
   | .mk (some k) v :: is, hg, rest => by
     obtain ⟨⟨hk, hfk⟩, ⟨hv, hfv⟩, his⟩ := hg
-    obtain ⟨c, r', hcr, hc, _⟩ := after_value p is his rest
-    obtain ⟨n1, hn1⟩ := dict_entry p hk hfk hv (c := c) (r' := r') hc
+    obtain ⟨c, r', hcr, hc, _⟩ := after_value p is rest
+    obtain ⟨n1, hn1⟩ := dict_entry p hk hv (c := c) (r' := r') (hc 1)
     obtain ⟨n2, hn2⟩ := dictRestRT p is his rest
     obtain ⟨t, tr, ht, hg⟩ := firstTok p k hfk 1
     refine ⟨n1 + n2 + 1, fun fuel hf => ?_⟩
@@ -1961,11 +2000,26 @@ theorem atomRT_dict (p : Nat → Bool) (is : List DictItem) (hg : GoodItems p is
     cases i with
     | mk k0 v =>
       cases k0 with
-      | none => simp [GoodItems] at hg
+      | none =>
+        obtain ⟨⟨hv, hfv⟩, his⟩ := hg
+        obtain ⟨c, r', hcr, hc, _⟩ := after_value p is rest
+        obtain ⟨n1, hn1⟩ := dict_unpack_value p hv (c := c) (r' := r') (hc 6)
+        obtain ⟨n2, hn2⟩ := dictRestRT p is his rest
+        have e1 : toks (unparse p (.dict (.mk none v :: is)) 15) ++ rest =
+            .op .lbrace :: .op .dstar :: (toks (unparse p v 6) ++ c :: r') := by
+          simp [unparse, toks_dictItems_unpack, op, ← hcr]
+        refine ⟨n1 + n2 + 2, fun fuel hf => ?_⟩
+        obtain ⟨f, rfl⟩ : ∃ f, fuel = f + 2 := ⟨fuel - 2, by omega⟩
+        have hV := hn1 f (by omega)
+        have hR := hn2 f (by omega)
+        rw [hcr] at hR
+        rw [e1, parseAtom, parseBraceAtom, hV]
+        simp only
+        rw [hR]
       | some k =>
         obtain ⟨⟨hk, hfk⟩, ⟨hv, hfv⟩, his⟩ := hg
-        obtain ⟨c, r', hcr, hc, hcomp⟩ := after_value p is his rest
-        obtain ⟨n1, hn1⟩ := dict_entry p hk hfk hv (c := c) (r' := r') hc
+        obtain ⟨c, r', hcr, hc, hcomp⟩ := after_value p is rest
+        obtain ⟨n1, hn1⟩ := dict_entry p hk hv (c := c) (r' := r') (hc 1)
         obtain ⟨n2, hn2⟩ := dictRestRT p is his rest
         obtain ⟨t, tr, ht, hgd⟩ := firstTok p k hfk 1
         have hw := second_not_walrus (c := .op .colon) (rest := toks (unparse p v 1) ++ c :: r')
@@ -2235,7 +2289,10 @@ theorem rt_all (p : Nat → Bool) : (e : Expr) → inFrag e = true → Good p e
   | .slice .., h => by simp [inFrag] at h
 theorem rt_items (p : Nat → Bool) : (is : List DictItem) → inFragItems is = true → GoodItems p is
   | [], _ => trivial
-  | .mk none v :: is, h => by simp [inFragItems] at h
+  | .mk none v :: is, h => by
+    have hv : inFrag v = true := by simp [inFragItems] at h; exact h.1
+    have his : inFragItems is = true := by simp [inFragItems] at h; exact h.2
+    exact ⟨⟨(rt_all p v hv).rt, hv⟩, rt_items p is his⟩
   | .mk (some k) v :: is, h => by
     have hk : inFrag k = true := by simp [inFragItems] at h; exact h.1.1
     have hv : inFrag v = true := by simp [inFragItems] at h; exact h.1.2
